@@ -120,8 +120,8 @@ fn one_run(store0: &InMemoryBackend, key: &rustic_core::repofile::MasterKey, src
 fn prune_run(store0: &InMemoryBackend, key: &rustic_core::repofile::MasterKey, src: &std::path::Path, fast: bool) -> anyhow::Result<String> {
     let store = Arc::new(store0.clone());
     let mut repo = open_repo(store.clone(), None, key, &repo_opts())?;
-    // data packs of ~6 blobs for the backup, one blob per pack for the repack target
-    let _ = repo.apply_config(&small_pack_config(60_000, 3_000))?;
+    // data packs of ~50 blobs for the backup, one blob per pack for the repack target
+    let _ = repo.apply_config(&small_pack_config(400_000, 3_000))?;
     let (repo, snap1) = backup_dir(repo, src, "src", None)?;
     // second state: drop every second top-level entry
     let src2 = tempfile::tempdir()?;
@@ -129,7 +129,7 @@ fn prune_run(store0: &InMemoryBackend, key: &rustic_core::repofile::MasterKey, s
     for e in std::fs::read_dir(src)? {
         let e = e?;
         k += 1;
-        if k % 2 == 0 && e.file_type()?.is_file() {
+        if (k % 2 == 0 || e.file_name() == "zz_big.bin") && e.file_type()?.is_file() {
             let _ = std::fs::copy(e.path(), src2.path().join(e.file_name()))?;
         }
     }
@@ -180,6 +180,17 @@ fn case(line: &str) -> String {
     let src = tempfile::tempdir().unwrap();
     materialize(src.path(), &entries).unwrap();
     let extra = t.opt_s().map_or(0, |x| x.parse::<u64>().unwrap_or(0));
+    if extra & 2 == 2 {
+        // the prune stage needs one pack with a long run of still-needed blobs (a repack that
+        // flushes many one-blob packs from a single coalesced read): a 300 KB incompressible
+        // top-level file, about 37 blobs, which the reduced source keeps
+        let mut buf = vec![0u8; 300_000];
+        for c in buf.chunks_mut(8) {
+            let v = r.next().to_le_bytes();
+            c.copy_from_slice(&v[..c.len()]);
+        }
+        std::fs::write(src.path().join("zz_big.bin"), &buf).unwrap();
+    }
     if extra & 1 == 1 {
         // the stall schedule needs far more data blobs than the whole pipeline can hold
         // (writer queue, pack stages, the parallel compress/encrypt buffers): 12 x 400 KB of
